@@ -181,6 +181,8 @@ class SNum:
             osym = True
         a, ai, b, bi = (ot, oi, self.t, self.is_int) if refl else (self.t, self.is_int, ot, oi)
         if op == '/':
+            if not refl and not osym and o == 0:
+                raise ZeroDivisionError('division by zero')       # as CPython does for a concrete zero divisor
             if (refl or osym):
                 # divisor symbolic
                 symx._ctx.note_nonlinear()
